@@ -23,7 +23,9 @@ class C03(PureCheck):
             "full in {False, True} x 3 naming modes x encodings utf8/ascii/latin1; streams K1 K2 through Input.find_key "
             "semantics (every table sequence followed by a sampled byte / table sequence / character, 'arrives whole' and "
             "'more buffered'); Unicode scalar values (quick: boundaries + 30k sampled; thorough: all 1,112,064) fed one byte "
-            "at a time. Key tables are extracted from the working tree. distinct_nontrivial = nodes x encodings + distinct "
+            "at a time; end to end: keypresses written to a pipe an Input reads from (a multi-byte key at every offset around the "
+            "1024-byte read boundary, a descriptor number above 256) and handed over by unget_bytes in several pieces with a "
+            "request after each piece. Key tables are extracted from the working tree. distinct_nontrivial = nodes x encodings + distinct "
             "streams + scalars")
     exhaustive = {"quick": False, "thorough": False}
     assumptions = ("the key tables of the working tree define 'recognised sequence' and 'table name'",
@@ -123,6 +125,14 @@ class C03(PureCheck):
                     items = [bytes([97 + j % 26]) for j in range(pad)] + [K] + [bytes([65 + j % 26]) for j in range(12)]
                     yield {"op": "pipe", "items": [list(x) for x in items], "enc": enc}
                 yield {"op": "pipe", "items": [[97], list(K), [98]], "enc": enc, "highfd": 1}    # descriptor number above 256
+        # the same end-to-end statement for bytes that arrive through unget_bytes in several pieces, a request after
+        # each piece: later pieces arrive while earlier keypresses are still buffered
+        for enc in encs:
+            pool = [b"a", b"b", b"\x1b[A", b"\x1b[D", b"\x1bOP", b"1", b"\x1b[15~", b"z", b"\t"]
+            for k in range(40 if tier == "quick" else 600):
+                items = [rng.choice(pool) for _ in range(rng.randrange(3, 8))]
+                pieces = [rng.randrange(1, 4) for _ in range(3)]
+                yield {"op": "pipe", "items": [list(x) for x in items], "enc": enc, "pieces": pieces}
         # scalar values
         cps = [0x20, 0x7E, 0x7F, 0x80, 0x7FF, 0x800, 0xFFF, 0x1000, 0xD7FF, 0xE000, 0xFFFD, 0xFFFF, 0x10000, 0x3FFFF, 0x40000, 0xFFFFF, 0x100000, 0x10FFFF]
         if tier == "quick":
@@ -146,7 +156,10 @@ class C03(PureCheck):
             return T.node_event(inp["buf"], inp["enc"])
         if inp["op"] == "pipe":
             ev = dict(inp)
-            ev.update(keylib.run_pipe(T, [bytes(x) for x in inp["items"]], inp["enc"], self.pipe, highfd=bool(inp.get("highfd"))))
+            if inp.get("pieces"):
+                ev.update(keylib.run_unget(T, [bytes(x) for x in inp["items"]], inp["pieces"], inp["enc"], self.pipe))
+            else:
+                ev.update(keylib.run_pipe(T, [bytes(x) for x in inp["items"]], inp["enc"], self.pipe, highfd=bool(inp.get("highfd"))))
             return ev
         if inp["op"] == "stream":
             ev = dict(inp)
